@@ -38,17 +38,24 @@ def mk(rng, i, author, kind, d, ts, extra=None):
 
 def gen_history(rng, n):
     evs = []
-    focus_kind = rng.choice([30000, 30000, 10002, 0])
+    focus_kind = rng.choice([30000, 30000, 30000, 10002, 0])
+    focus_author = rng.choice(AUTH)
+    small = rng.random() < 0.5          # a small d vocabulary makes address collisions likely
+    dpool = [None, "bare", "", "a", "ab"] if small else DTAGS
     for i in range(n):
-        kind = focus_kind if rng.random() < 0.65 else rng.choice(KINDS)
-        d = rng.choice(DTAGS) if 30000 <= kind < 40000 else (rng.choice([None, "a"]) if rng.random() < 0.2 else None)
+        kind = focus_kind if rng.random() < 0.75 else rng.choice(KINDS)
+        d = rng.choice(dpool) if 30000 <= kind < 40000 else (rng.choice([None, "a"]) if rng.random() < 0.2 else None)
         extra = None
         r = rng.random()
-        if r < 0.1:
-            extra = [["d", rng.choice(["a", "zz", ""])]]  # a second d tag
-        elif r < 0.2:
+        if r < 0.3:
+            # further d tags after the first one: only the first counts
+            extra = [["d", rng.choice(["a", "ab", "b", ""])] for _ in range(rng.choice([1, 1, 2]))]
+            if rng.random() < 0.2:
+                extra.insert(0, ["d"])
+        elif r < 0.4:
             extra = [["t", "x"]]
-        evs.append(mk(rng, i, rng.choice(AUTH) if rng.random() < 0.8 else AUTH[0], kind, d, T0 + rng.choice([0, 1, 2, 3, 3]), extra))
+        evs.append(mk(rng, i, focus_author if rng.random() < 0.8 else rng.choice(AUTH), kind, d,
+                      T0 + rng.choice([0, 1, 2, 3, 3]), extra))
     if rng.random() < 0.3 and evs:
         evs.append(dict(rng.choice(evs)))  # resubmission
     return evs
